@@ -170,6 +170,11 @@ fn b16(b: &[u8]) -> [u8; 16] {
     r
 }
 
+thread_local! {
+    static RECEIVER_FAULT: std::cell::Cell<bool> = const { std::cell::Cell::new(false) };
+    static RECEIVER_CHECKS: std::cell::Cell<u64> = const { std::cell::Cell::new(0) };
+}
+
 /// feeds the operations into the machine; returns (ones_complement, .._with_no_zero) in wire
 /// order. Calls etherparse: use under `guard!`.
 fn run_ops(m: Mach, ops: &[Op]) -> (u16, u16) {
@@ -177,13 +182,22 @@ fn run_ops(m: Mach, ops: &[Op]) -> (u16, u16) {
         Mach::S => {
             let mut s = Sum16BitWords::new();
             for op in ops {
-                s = match *op {
-                    Op::Slice(d) => s.add_slice(d),
-                    Op::B2(b) => s.add_2bytes(b),
+                // `add_{4,8,16}bytes` take `&mut self` and return the new sum. Whichever way that is
+                // read, the receiver afterwards holds the old sum or the returned one - anything
+                // else makes a second continuation from the same accumulator wrong.
+                let before = s.clone();
+                let r = match *op {
+                    Op::Slice(d) => s.clone().add_slice(d),
+                    Op::B2(b) => s.clone().add_2bytes(b),
                     Op::B4(b) => s.add_4bytes(b),
                     Op::B8(b) => s.add_8bytes(b),
                     Op::B16(b) => s.add_16bytes(b),
                 };
+                if s != before && s != r {
+                    RECEIVER_FAULT.with(|c| c.set(true));
+                }
+                RECEIVER_CHECKS.with(|c| c.set(c.get() + 1));
+                s = r;
             }
             (wire(s.ones_complement()), wire(s.to_ones_complement_with_no_zero()))
         }
@@ -2749,6 +2763,20 @@ impl Monitor for C09 {
     }
 
     fn run_case(&mut self, engine: &str, idx: u64, rng: &mut Prng, rep: &mut Report) {
+        self.run_engine(engine, idx, rng, rep);
+        rep.add("helper.receiver_state_checks", RECEIVER_CHECKS.with(|c| c.replace(0)));
+        if RECEIVER_FAULT.with(|c| c.replace(false)) {
+            rep.violation(
+                "helper|Sum16BitWords|receiver_state",
+                "after add_{4,8,16}bytes(&mut self, ..) the receiver holds neither its old sum nor the returned sum".into(),
+                &[],
+            );
+        }
+    }
+}
+
+impl C09 {
+    fn run_engine(&mut self, engine: &str, idx: u64, rng: &mut Prng, rep: &mut Report) {
         if !self.selfchecked {
             self.selfchecked = true;
             for f in rf::selfcheck() {
